@@ -134,7 +134,81 @@ def pInteg : P (List B) := do
   if !(← get).isEmpty then throw "trailing"
   return out.toList
 
+/-! ### `imu.hist2`: the same history with RAW arguments — the resolution happens in the model (`forwardArgs`)
+
+`imu.hist2 eps g reset propcov left p0(3) R0(4) v0(3) modG(3) modA(3) ncalls call…`
+  call := `F hasrot initkind [dict] gckind [gc] ackind [ac] rawframe×F`
+  dict := haspos [3] hasrot [4] hasvel [3] covkind(0 key absent | 1 None | 2 value[81]) rijkind(0 | 1 | 2 [4])
+  gc   := kind 0 nothing | kind 1 one row (3) | kind 2 F rows (3F);  rawframe := dt gyro(3) acc(3) [rot(4)]
+  reply: as `imu.hist`; a call whose `init_state` lacks a required key replies nothing for that call (state unchanged). -/
+
+def pOpt (p : P β) : P (Option β) := do
+  let k ← pNat
+  if k == 1 then (do let x ← p; pure (some x)) else pure none
+
+def pCovArg (F : Nat) : P (CovArg B) := do
+  let k ← pNat
+  match k with
+  | 0 => pure .none
+  | 1 => do let v ← pV3; pure (.row v)
+  | _ => do
+    let vs ← pRep F pV3
+    let arr := vs.toArray
+    pure (.rows fun j => arr.getD j Vec3.zero)
+
+def pInitDict : P (InitDict B) := do
+  let p ← pOpt pV3; let r ← pOpt pQ; let v ← pOpt pV3
+  let ck ← pNat
+  let cov ← match ck with
+    | 0 => pure none
+    | 1 => pure (some none)
+    | _ => (do let c ← pM9; pure (some (some c)))
+  let rk ← pNat
+  let rij ← match rk with
+    | 0 => pure none
+    | 1 => pure (some none)
+    | _ => (do let r ← pQ; pure (some (some r)))
+  return ⟨p, r, v, cov, rij⟩
+
+def pRawFrame (hasrot : Bool) : P (RawFrame B) := do
+  let dt ← pNum; let gy ← pV3; let ac ← pV3
+  let rot ← if hasrot then (do let r ← pQ; pure (some r)) else pure none
+  return ⟨dt, gy, ac, rot⟩
+
+def pHist2 : P (List B) := do
+  let eps ← pNum; let g ← pNum
+  let reset ← pNat; let propcov ← pNat; let left ← pNat
+  let p0 ← pV3; let r0 ← pQ; let v0 ← pV3
+  let modG ← pV3; let modA ← pV3
+  let n ← pNat
+  let cfg : Cfg B := ⟨eps, ⟨BigF.zero, BigF.zero, g⟩, reset == 1, propcov == 1, left == 1⟩
+  let mut st : State B := State.fresh p0 r0 v0
+  let mut out : Array B := #[]
+  for _ in [0:n] do
+    let F ← pNat; let hasrot ← pNat; let ik ← pNat
+    let init ← if ik == 1 then (do let d ← pInitDict; pure (some d)) else pure none
+    let gc ← pCovArg F
+    let ac ← pCovArg F
+    let frs ← pRep F (pRawFrame (hasrot == 1))
+    let arr := frs.toArray
+    let raw : Nat → RawFrame B := fun j => arr.getD j ⟨BigF.zero, Vec3.zero, Vec3.zero, none⟩
+    let (res, st') := forwardArgs cfg modG modA st init gc ac raw F
+    match res with
+    | .ok r =>
+      for o in r.outs do
+        out := out ++ o.toList.toArray
+      match r.cov with
+      | some cv => out := out ++ cv.a
+      | none => pure ()
+    | .error _ => pure ()
+    st := st'
+  if !(← get).isEmpty then throw "trailing"
+  return out.toList
+
 def opsC16 : List (String × Handler) := [
+  ("imu.hist2", fun ts => do
+      let (ys, _) ← pHist2.run ts
+      return fmt ys),
   ("imu.integrate", fun ts => do
       let (ys, _) ← pInteg.run ts
       return fmt ys),
